@@ -212,7 +212,7 @@ pub fn plan_for(id: &str) -> Option<Plan> {
         "C06" => Some(Plan {
             property: "C06",
             level: "fault_enumeration",
-            rule: "borrower programs over the alphabet {repay exact, repay-1, repay+7, nothing, fail, deposit, withdraw shares, collect fees, nested loan (same / other vault)}: ALL programs of nesting depth <=2 and length <=2, all depth-1 programs of length 3 and all depth-1 length<=2 router payloads are enumerated for a native and a cw20 vault (first enum_runs() run indices); further runs sample depth-3 programs after random deposit/withdraw/collect/fee-change prefixes with injected sub-call and bank faults; distinct = distinct (balance, pending, LP supply, LP balances) states after a successful loan",
+            rule: "borrower programs over the alphabet {repay exact, repay-1, repay+7, nothing, fail, deposit, withdraw shares, collect fees, call the vault's AfterTrade callback from outside, nested loan (same / other vault)}: ALL programs of nesting depth <=2 and length <=2, all depth-1 programs of length 3 and all depth-1 length<=2 router payloads are enumerated for a native and a cw20 vault (first enum_runs() run indices); further runs sample depth-3 programs after random deposit/withdraw/collect/fee-change prefixes with injected sub-call and bank faults; distinct = distinct (balance, pending, LP supply, LP balances) states after a successful loan",
             parts: vec![vault_part(scen::vault::enum_runs() + 1500, scen::vault::enum_runs() + 150_000)],
             real: VAULT_REAL.to_vec(),
             stubbed: STUBS.to_vec(),
@@ -316,7 +316,8 @@ pub fn plan_for(id: &str) -> Option<Plan> {
             ],
             exhaustive: false,
         }),
-        "C16" => Some(all_plan(
+        "C16" => {
+            let mut p = all_plan(
             "C16",
             "fault_enumeration",
             true,
@@ -330,7 +331,11 @@ pub fn plan_for(id: &str) -> Option<Plan> {
                 "a cell whose precondition cannot be arranged in the state of its run would be counted under cell_not_arrangeable/* (none in the recorded runs); combinations that do not exist (role 'factory' for a contract without factory, ...) are excluded by fn applicable",
                 "cw-multi-test executes messages, sub-messages, replies, admin checks and rollbacks like wasmd",
             ],
-        )),
+        );
+            // internal callbacks attempted from inside a flash loan (the only time the vault's loan state is non-trivial)
+            p.parts.push(vault_part(1500, 60_000));
+            Some(p)
+        }
         "C18" => Some(all_plan(
             "C18",
             "exploration",
